@@ -76,8 +76,18 @@ def specLine (wf : Bool) (conds : List Cond) (expMarks : List String) (m : Out) 
     render { verdict := v, seen := m.seen, marks := if v == .ACCEPT then expMarks else [],
              ret := if v == .ACCEPT then m.ret else [] }
 
-def both (wf : Bool) (conds : List Cond) (expMarks : List String) (m : Out) : String :=
-  render m ++ " | " ++ specLine wf conds expMarks m
+/-- `model | spec`. `alts` are named variants of the condition list ("what if this one chain fact / rule were
+different"): when the model's answer is not allowed by the specification but IS allowed under a variant, the spec
+column gets the suffix ` note=<name>`. The notes name the classes of input recorded in known_findings.jsonl, so
+that a known finding matches exactly its own class and nothing else. -/
+def both (wf : Bool) (conds : List Cond) (expMarks : List String) (m : Out)
+    (alts : List (String × List Cond) := []) : String :=
+  let s := specLine wf conds expMarks m
+  let s := if s == render m || s == "any" then s else
+    match alts.find? (fun a => specLine wf a.2 expMarks m == render m) with
+    | some a => s ++ " note=" ++ a.1
+    | none => s
+  render m ++ " | " ++ s
 
 def noOverflow (a b : UInt64) : Bool := decide (a.toNat * b.toNat < 2 ^ 64)
 
@@ -176,7 +186,7 @@ def parseContrib (kv : KV) : Option ContribIn := do
          maxSlot := ← getU kv "max", selProof := proof, blockKnown := ← getB kv "bknown", epc := ← getB kv "epc",
          curCommittee := ← getL kv "cur", nextCommittee := ← getL kv "next", seen := ← getB kv "seen",
          nVals := ← getU kv "nvals", domainOk := ← getB kv "dom", selSig := ← getB kv "selsig",
-         outerSig := ← getB kv "osig", contribSig := ← getB kv "csigcur", contribSigSpec := ← getB kv "csig" }
+         outerSig := ← getB kv "osig", contribSigCur := ← getB kv "csigcur", contribSigNext := ← getB kv "csignext" }
 
 /-! well-formedness assumptions under which the specification column is binding (else `any`) -/
 
@@ -184,7 +194,8 @@ def wfBlock (i : BlockIn) : Bool := noOverflow i.finEpoch i.spe
 /-- chain-view consistency: "target is the checkpoint block" implies "target is an ancestor" -/
 def wfTarget (tsub : Tri) (ckpt : Bool) : Bool := !ckpt || tsub == .yes
 def wfAtt (i : AttIn) : Bool := wfTarget i.targetSub i.targetIsCkpt && noOverflow i.cps i.spe
-def wfAgg (i : AggIn) : Bool := wfTarget i.targetSub i.targetIsCkpt
+/-- … and an unknown block has unknown ancestry (the aggregate validator learns "block seen" from `InSubtree`) -/
+def wfAgg (i : AggIn) : Bool := wfTarget i.targetSub i.targetIsCkpt && (i.blockKnown || i.targetSub == .unk)
 def wfExit (i : ExitIn) : Bool := decide (i.activation.toNat + i.shardPeriod.toNat < 2 ^ 64)
 
 def bool01 (b : Bool) : String := if b then "true" else "false"
@@ -203,10 +214,18 @@ def line (l : String) : String :=
         | some i => both (wfBlock i) (Spec.blockConds i) (Spec.blockMarks i) (validateBlock i)
         | none => bad
       | "att" => match parseAtt kv, getFork kv with
-        | some i, some f => both (wfAtt i) (Spec.attConds f i) (Spec.attMarks i) (validateAttestation i)
+        | some i, some f =>
+          let ck := { i with targetIsCkpt := true }
+          both (wfAtt i) (Spec.attConds f i) (Spec.attMarks i) (validateAttestation i)
+            [("target-not-checkpoint", Spec.attConds f ck), ("eip7045-window", Spec.attConds .phase0 i),
+             ("target-not-checkpoint+eip7045-window", Spec.attConds .phase0 ck)]
         | _, _ => bad
       | "agg" => match parseAgg kv, getFork kv with
-        | some i, some f => both (wfAgg i) (Spec.aggConds f i) (Spec.aggMarks i) (validateAggregate i)
+        | some i, some f =>
+          let ck := { i with targetIsCkpt := true }
+          both (wfAgg i) (Spec.aggConds f i) (Spec.aggMarks i) (validateAggregate i)
+            [("target-not-checkpoint", Spec.aggConds f ck), ("eip7045-window", Spec.aggConds .phase0 i),
+             ("target-not-checkpoint+eip7045-window", Spec.aggConds .phase0 ck)]
         | _, _ => bad
       | "exit" => match parseExit kv with
         | some i => both (wfExit i) (Spec.exitConds i) (Spec.exitMarks i) (validateExit i)
